@@ -65,7 +65,12 @@ func startFront(target string) (*front, error) {
 					return
 				}
 				defer t.Close()
-				go io.Copy(t, c)
+				// when either side ends, both connections are closed
+				go func() {
+					io.Copy(t, c)
+					t.Close()
+					c.Close()
+				}()
 				io.Copy(c, t)
 			}()
 		}
